@@ -1064,7 +1064,7 @@ def chain_depth(view):
     return 0
 
 
-def check_packages(ctx, pkgs, stream, validate=True):
+def check_packages(ctx, pkgs, stream, direct=True):
     root = ctx.scratch / f"pk-{stream}-{ctx.stats.get('batches', 0)}"
     ctx.count("batches")
     root.mkdir(parents=True, exist_ok=True)
@@ -1100,11 +1100,13 @@ def check_packages(ctx, pkgs, stream, validate=True):
             if dmi:
                 ctx.tie_failure("correspondence", "griffe_load(model) vs griffe.load", {"diffs": dmi[:6], "model_flags": [ml["f1"], ml["f3"]]}, case)
         # the unproved link between the real traversal and the dependency-order schedule, checked on every clean run
-        if not ml["error"] and not ml["f1"] and not ml["f3"] and not ml["dropped"] and not ml["unsupported"]:
+        if direct and not ml["error"] and not ml["f1"] and not ml["f3"] and not ml["dropped"] and not ml["unsupported"]:
             if ml["modules"] != ms_view and (a["error"] is None and not a["flags"]):
                 ctx.tie_failure("correspondence", "griffe_load(model) vs griffe_sched(model) on a run without gap events",
                                 {"real": ml["modules"], "sched": ms_view}, case)
             ctx.count("real_vs_sched_compared")
+        if not direct:
+            continue          # cyclic packages: outside the property; only the model-vs-implementation tie is checked
         # ---- validity: the interpreter imports the package, never reads a partially initialised module, and the result does not
         #      depend on the order in which the submodules are imported
         if a["error"] or b["error"]:
@@ -1182,7 +1184,7 @@ def explore(ctx):
                 for p in pkgs:
                     add_back_edges(ctx.rng, p)
             k += m
-            check_packages(ctx, pkgs, stream)
+            check_packages(ctx, pkgs, stream, direct=(stream != "cyclic"))
             done += m
             if ctx.quick and ctx.elapsed() > 90:
                 ctx.notes.append(f"time budget reached after {done} {stream} packages")
